@@ -2,15 +2,21 @@ package generator
 
 import (
 	"fmt"
+	"sort"
 
 	"github.com/jmattheis/goverter/method"
 )
 
 func validateMethods(lookup *method.Index[generatedMethod]) error {
+	var genMethods []*generatedMethod
 	for _, hits := range lookup.Exact {
 		for _, entry := range hits {
-			genMethod := entry.Item
-
+			genMethods = append(genMethods, entry.Item)
+		}
+	}
+	sort.Slice(genMethods, func(i, j int) bool { return genMethods[i].Name < genMethods[j].Name })
+	{
+		for _, genMethod := range genMethods {
 			if genMethod.Explicit && len(genMethod.RawFieldSettings) > 0 {
 				isTargetStructPointer := genMethod.Target.Pointer && genMethod.Parameters.Target.PointerInner.Struct
 				if !genMethod.Target.Struct && !isTargetStructPointer {
